@@ -173,7 +173,7 @@ def step (s : St) : Ev → Except String St
       else if p.evals.head? ≠ some src then .error "chg: stored residual is not the first sample of the evaluated point"
       else if ¬ allow then .error "chg: incumbent update disabled"
       else if ¬ s.hasH ∧ p.evals.length = 1 ∧ v ≠ p.vmean then .error "chg: stored objective differs from the evaluated one"
-      else if ¬ overwriteOK m k v then .error "chg: incumbent's row overwritten by a worse point without saving it"
+      else if ¬ s.hasH ∧ ¬ overwriteOK m k v then .error "chg: incumbent's row overwritten by a worse point without saving it"
       else match m.changePoint k p.xid [src] v label true with
         | .ok m' =>
           if m'.kopt ≠ koptAfter then .error "chg: kopt differs from the model's"
